@@ -20,6 +20,7 @@
  * Module supporting the package database.  WIP.
  */
 use crate::metadata::MetadataEntry;
+use crate::PkgName;
 use std::fs;
 use std::fs::ReadDir;
 use std::io;
@@ -188,11 +189,12 @@ impl Iterator for PkgDB {
                         }
                         match dir.file_name().to_str() {
                             Some(p) => {
-                                let v: Vec<&str> = p.rsplitn(2, '-').collect();
+                                let pkgname = PkgName::new(p);
                                 package.path = dir.path();
                                 package.pkgname = p.to_string();
-                                package.pkgbase = v[0].to_string();
-                                package.pkgversion = v[1].to_string();
+                                package.pkgbase = pkgname.pkgbase().to_string();
+                                package.pkgversion =
+                                    pkgname.pkgversion().to_string();
                                 return Some(Ok(package));
                             }
                             _ => {
